@@ -595,6 +595,14 @@ func (a *analyzer) collect() (accs []accRow, writes []writeRow, ranges []rangeRo
 	} else {
 		return nil, nil, nil, nil, fmt.Errorf("annotatedInternals not found in to.go")
 	}
+	// every function of to.go that a theorem of Proofs/C12*.lean or a definition of Model/ConvDoc.lean names: a renamed or
+	// removed one is a broken tie here (and `C12Doc.named_functions_present` fails over the regenerated tables)
+	for _, fn := range []string{"applyBag", "applyStringBag", "applyNumericRangeDefaults", "applyMeta", "convert", "convertEnum",
+		"convertFile", "convertLiteral", "convertObjectFromShape", "doConvert", "toFloat", "toJSONSchemaRegistry", "toJSONSchemaSingle"} {
+		if _, ok := a.funcs[fn]; !ok {
+			return nil, nil, nil, nil, fmt.Errorf("%s not found in to.go (named by the C12 theorems / the document model)", fn)
+		}
+	}
 	var names []string
 	for n := range a.funcs {
 		names = append(names, n)
